@@ -1,6 +1,7 @@
 import LeaspyVerif.Proto
 import LeaspyVerif.Model.Traj
 import LeaspyVerif.Model.Gauge
+import LeaspyVerif.Model.Dist
 open LeaspyVerif LeaspyVerif.Proto LeaspyVerif.Traj LeaspyVerif.Gauge
 
 /-
@@ -22,6 +23,18 @@ requests (floats are `f<uint64 bits>`; lists `a,b`; matrices `a,b;c,d`; `_` = em
 
   ssvec logg=<f> deltas=<v>
       → collin=<v> gmetric=<v> metric=<v>      the vectors the shared-speed model hands to `OrthoBasis`, and its metric
+
+  gram dgamma=<v> G=<v> j=<n>
+      → gram=<m> gramg=<m> proj=<m> colj=<v> alpha=<f> | err:… (as `ortho`)
+        `BᵀB` (`gramBasis`), `Bᵀ diag(G) B` (`gramBasisG`), `B Bᵀ` (`projBasis`), the stripped column `Q[:, j]`
+        and `alpha = -sign(a_j)‖a‖` of the Householder construction
+
+  gauge2 xi=<v> logv0=<v> nlognu=<v|none> c=<f> mu=<f> sigma=<f> cst=<f>
+      → once_xi= once_logv0= once_nlognu= twice_xi= twice_logv0= twice_nlognu= orbit_xi= orbit_logv0= orbit_nlognu=
+        sum=<f> sumsq=<f> sumsq0=<f> mean=<f> regul_before=<f> regul_after=<f>
+        centring once / twice (`center ∘ center`), centring after the gauge shift by `c` (`center ∘ shift c`),
+        the sums of the sufficient statistics `suffXi` (`Σξ'`, `Σξ'²`) and `Σξ²`, and `regulSum` of
+        `Dist.normalNllWith cst · mu sigma` before / after the centring
 -/
 
 def getF (args : List String) (k : String) : Option Float := (kv args k) >>= parseFloat
@@ -122,6 +135,53 @@ def handleOrtho (args : List String) : Option String := do
       if sh == "err" then some "err:shape" else
       some s!"{head} mixing={fmtList2 fmtFloat Ml} shifts={sh}"
 
+def handleGram (args : List String) : Option String := do
+  let dg ← getV args "dgamma"
+  let G ← getV args "G"
+  let j ← (kv args "j") >>= parseNat
+  match orthoBasis1D Float.sqrt dg G j with
+  | .error .negMetric => some "err:negmetric"
+  | .error .size => some "err:size"
+  | .error .stripCol => some "err:stripcol"
+  | .ok _ =>
+    let n := dg.length
+    let a := vec (List.zipWith (· * ·) G dg)
+    let g := tabulate (n - 1) (n - 1) (gramBasis Float.sqrt n a j)
+    let gg := tabulate (n - 1) (n - 1) (gramBasisG Float.sqrt n (vec G) a j)
+    let pr := tabulate n n (projBasis Float.sqrt n a j)
+    let colj := (List.range n).map fun i => householderQ Float.sqrt n a j i j
+    some s!"gram={fmtList2 fmtFloat g} gramg={fmtList2 fmtFloat gg} proj={fmtList2 fmtFloat pr} colj={fmtList fmtFloat colj} alpha={fmtFloat (hhAlpha Float.sqrt n a j)}"
+
+def handleGauge2 (args : List String) : Option String := do
+  let xi ← getV args "xi"
+  let logV0 ← getV args "logv0"
+  let nlognu ← optV args "nlognu"
+  let c ← getF args "c"
+  let mu ← getF args "mu"
+  let sigma ← getF args "sigma"
+  let cst ← getF args "cst"
+  let fl := fmtList fmtFloat
+  let nll : Float → Float := fun x => Dist.normalNllWith cst x mu sigma
+  let (o, t, b) : (List Float × List Float × String) × (List Float × List Float × String) × (List Float × List Float × String) :=
+    match nlognu with
+    | some nl =>
+      let r1 := centerJoint xi logV0 nl
+      let r2 := centerJoint r1.1 r1.2.1 r1.2.2
+      let sh := shiftJoint c xi logV0 nl
+      let r3 := centerJoint sh.1 sh.2.1 sh.2.2
+      ((r1.1, r1.2.1, fl r1.2.2), (r2.1, r2.2.1, fl r2.2.2), (r3.1, r3.2.1, fl r3.2.2))
+    | none =>
+      let r1 := center xi logV0
+      let r2 := center r1.1 r1.2
+      let sh := shift c xi logV0
+      let r3 := center sh.1 sh.2
+      ((r1.1, r1.2, "none"), (r2.1, r2.2, "none"), (r3.1, r3.2, "none"))
+  let ss := suffXi xi logV0
+  some (s!"once_xi={fl o.1} once_logv0={fl o.2.1} once_nlognu={o.2.2} twice_xi={fl t.1} twice_logv0={fl t.2.1} twice_nlognu={t.2.2} " ++
+        s!"orbit_xi={fl b.1} orbit_logv0={fl b.2.1} orbit_nlognu={b.2.2} " ++
+        s!"sum={fmtFloat (Gauge.sum ss.1)} sumsq={fmtFloat (Gauge.sum ss.2)} sumsq0={fmtFloat (Gauge.sum (sqr xi))} mean={fmtFloat (mean xi)} " ++
+        s!"regul_before={fmtFloat (regulSum nll xi)} regul_after={fmtFloat (regulSum nll ss.1)}")
+
 def handleSsVec (args : List String) : Option String := do
   let logG ← getF args "logg"
   let deltas ← getV args "deltas"
@@ -138,6 +198,8 @@ def handle (line : String) : String :=
   | "nurep" :: args => (handleNuRep args).getD "bad-request"
   | "ortho" :: args => (handleOrtho args).getD "bad-request"
   | "ssvec" :: args => (handleSsVec args).getD "bad-request"
+  | "gram" :: args => (handleGram args).getD "bad-request"
+  | "gauge2" :: args => (handleGauge2 args).getD "bad-request"
   | _ => "bad-request"
 
 def main : IO Unit := loop handle
